@@ -64,6 +64,11 @@ type Policy struct {
 	// (RFC 4120 5.2.7.5: they MAY be sent in the reply).
 	TerseASRep      bool `json:"terse_asrep,omitempty"`
 	TerseErrors     bool `json:"terse_errors,omitempty"`
+	// ErrorSName: what the (mandatory) sname of a KRB-ERROR holds.  "" = the service the request
+	// names (MIT); "empty" = a name without components, which is what Heimdal writes for errors it
+	// raises without having a server principal at hand (RESPONSE_TOO_BIG among them); "krbtgt" = the
+	// realm's ticket-granting service whatever was asked for
+	ErrorSName string `json:"error_sname,omitempty"`
 	OmitDefaultSalt bool `json:"omit_default_salt,omitempty"`
 	// TicketAuthDataPad: every ticket carries this many bytes of authorization data (as tickets with a
 	// PAC of many group memberships do): the size of the replies grows by as much.
@@ -356,6 +361,12 @@ func (k *KDC) errReply(code int32, req *rk.KDCReq, edata []byte, etext string) [
 			cr := req.Realm
 			e.CRealm = &cr
 		}
+	}
+	switch k.Policy.ErrorSName {
+	case "empty":
+		e.SName = rk.PrincipalName{Type: 0, Names: []string{}}
+	case "krbtgt":
+		e.SName = rk.ParseName("krbtgt/" + k.Realm)
 	}
 	if etext != "" {
 		e.EText = &etext
